@@ -78,8 +78,12 @@ class C02(PropertyCheck):
         "for shape masks, the result has both masked and unmasked pixels; distinct = distinct inputs"
     )
     exhaustive_note = {
-        "quick": "every shape (H,W) in 1..7 x 1..7 is visited by each case family (parameters sampled)",
-        "thorough": "every shape (H,W) in 1..12 x 1..12 is visited by each case family (parameters sampled)",
+        "quick": "complete enumerations: every 1-D mask with n <= 6 cells; every shape (H,W) in 1..7 x 1..7 for "
+                 "each case family, and within a geometry case every pixel centre and both sides of every pixel "
+                 "boundary line; scales/origins/radii/angles are sampled, not enumerated",
+        "thorough": "complete enumerations: every 1-D mask with n <= 9 cells; every shape (H,W) in 1..12 x 1..12 "
+                    "for each case family, and within a geometry case every pixel centre and both sides of every "
+                    "pixel boundary line; scales/origins/radii/angles are sampled, not enumerated",
     }
     trusted_extra = [
         "IEEE-754 rounding of `coordinate/scale + centre + 0.5` (theorems are over exact ordered fields; "
